@@ -225,7 +225,7 @@ theorem signature.SignatureList.AppendBytes_eq (E : Ext) (sl : SignatureList) (o
       if (⟨o, normData E sl.SignatureType d⟩ : SignatureData) ∈ sl.Signatures then
         (sl, some "ErrSigDataExists") else
       if sl.SignatureType = CERT_SHA256_GUID ∧ (normData E sl.SignatureType d).length ≠ 32 then
-        (sl, some "errors.New:not a sha256 hash") else
+        (sl, some "errors.New") else
       if sl.Signatures ≠ [] ∧
           UInt32.ofNat (normData E sl.SignatureType d).length + 16 ≠ sl.Size then
         (sl, some "ErrSigDataSize") else
